@@ -19,11 +19,37 @@ def nontrivial(ex):
 def run(pid, tier, replay=None):
     th = tier == "thorough"
     mcs = [("w2", "ObjectMC.tla", MC % (3, 2, 2), 4, 900), ("w3", "ObjectMC.tla", MC % (4, 3, 2), 6, 900), ("lossy", "ObjectMC.tla", MC % (3, 2, 4), 4, 900)]
+    SCHED = """SPECIFICATION Spec
+CONSTANTS Streams = {%s} Dev = {} Segs = 2 Window = %d
+INVARIANTS ScanBounded ListConsistent WindowRespected
+PROPERTY ScanTerminates
+CHECK_DEADLOCK FALSE
+"""
+    mcs.append(("sched", "FetchSchedMC.tla", SCHED % ("a, b, c", 3), 4, 900))
     if th:
+        mcs.append(("sched4", "FetchSchedMC.tla", SCHED % ("a, b, c, d", 4), 8, 2400))
         mcs.append(("w4", "ObjectMC.tla", MC % (6, 4, 2), 8, 2400))
+    try:
+        return _run(pid, tier, replay, th, mcs)
+    except V.Hang as h:
+        # "the callback reports completion exactly once": a consume run that spins forever never reports one
+        import os, shutil
+        d = os.path.join(V.VERIF, "out", pid)
+        os.makedirs(d, exist_ok=True)
+        path = os.path.join(d, "hang-%d.json" % os.getpid())
+        shutil.copy(os.path.join(h.outdir, "hang.json"), path)
+        for f in ("obj.ndjson",):
+            if os.path.exists(os.path.join(h.outdir, f)):
+                shutil.copy(os.path.join(h.outdir, f), path + "." + f)
+        print("VIOLATION property=%s replay=%s" % (pid, path))
+        V.log("  no completion: the object client stopped making progress (livelock) at %s" % h.info.get("at"))
+        return 1
+
+
+def _run(pid, tier, replay, th, mcs):
     return V.pipeline(
         pid, tier, None, "object", mc_runs=mcs, gens=[],
-        drivers=[("TestObjGen", {"VERIF_N": 400 if th else 40, "VERIF_LEN": 10 if th else 8}, ["obj.ndjson"]),
+        drivers=[("TestObjGen", {"VERIF_N": 3000 if th else 300, "VERIF_LEN": 10 if th else 8}, ["obj.ndjson"]),
                  ("TestStoreGen", {"VERIF_N": 800 if th else 80, "VERIF_LEN": 60 if th else 40}, ["store.ndjson"])],
         replay_driver=None, trace_module="ObjTrace.tla", trace_head=HEAD,
         props=["P_C15consume", "P_C15get", "T_nopanic"], invs=[], nontrivial=nontrivial,
